@@ -439,6 +439,8 @@ def f_first_last(name: str, left: Any) -> Any:
 
 
 def f_join(left: Any, pos: list[Any]) -> str:
+    if pos and isinstance(_plain(pos[0]), dict):
+        raise Undoc("join: hash separator")  # the text of a non-empty hash is not documented
     sep = " " if not pos else s_of(pos[0])
     v = _plain(left)
     if isinstance(v, (list, Range, str)) or is_nil(v):
